@@ -246,6 +246,21 @@ def goOpsRaw (a : Args) : String :=
       | none => "ok"
   | _, _, _ => "bad args"
 
+/-- `pwopsraw`: an operator impl the harness found on `Segment<T>` / `Piecewise<T>` by probing (C15: every piece type for
+which the operator exists): same number of pieces, every breakpoint bit-identical, every piece = the piece-level
+operation number by number.  No model instance involved. -/
+def goPwOpsRaw (a : Args) : String :=
+  match arg a "op", (arg a "pw").bind Out.rawSegs?, a.get "impl" with
+  | some op, some src, some s =>
+    if s == "NOIMPL" then "ok" else
+    match Out.parseLike (.segs []) s with
+    | none => "bad cannot parse impl"
+    | some impl =>
+      match Mon.pwOps op (arg a "T") src ((arg a "s").bind fx?) impl with
+      | some why => "MONFAIL " ++ why
+      | none => "ok"
+  | _, _, _ => "bad args"
+
 /-! piecewise-level operations -/
 
 def goPwDeriv {T D : Type} [Codec T FX] [HasDerivative T D] [Nums D FX] [Nums T FX] (a : Args) : String :=
@@ -364,12 +379,12 @@ def goMerge (a : Args) : String :=
 
 def goLinear (a : Args) : String :=
   match (arg a "knots").bind knots? with
-  | some ks => verdict a (Out.ofOptPw (Hand.linear ks)) (Mon.linear ks)
+  | some ks => verdict a (Out.ofOptPw (Hand.linear ks)) (fun impl => Mon.linear ks impl (win := a.get "nowin" != some "1"))
   | _ => "bad args"
 
 def goSpline (a : Args) : String :=
   match (arg a "knots").bind knots? with
-  | some ks => verdict a (Out.ofOptPw (Hand.constrainedSpline ks)) (Mon.spline ks)
+  | some ks => verdict a (Out.ofOptPw (Hand.constrainedSpline ks)) (fun impl => Mon.spline ks impl (win := a.get "nowin" != some "1"))
   | _ => "bad args"
 
 def goSf (a : Args) : String :=
@@ -515,6 +530,7 @@ def handle (line : String) : String :=
       | "neg" => (forNegAdd! tag, goNeg, a)
       | "add" => (forNegAdd! tag, goAdd, a)
       | "opsraw" => some (goOpsRaw a)
+      | "pwopsraw" => some (goPwOpsRaw a)
       | "absdiff" => (forAll! tag, goAbsDiff, a)
       | "releq" => (forAll! tag, goRelEq, a)
       | "pwderiv" => (forDeriv! tag, goPwDeriv, a)
